@@ -147,6 +147,19 @@ def cutout_rules(repo, res):
     h = repo.method(AS, '_moment_data_cutout')
     expect_stmt(res, 'SPEC', h, nf_text('arr_[arr.mask]') + ' = ' + nf_text('0.0'), 'masked pixels contribute zero to the moments')
     expect_stmt(res, 'SPEC', h, 'data = ' + nf_text('deepcopy(self.data_cutout)'), 'moments work on a deep copy of the cutouts')
+    # sums go through _get_values (NaN for apertures without an unmasked pixel)
+    sm = repo.method(AS, 'sum')
+    expect_stmt(res, 'SPEC', sm, 'data_values = ' + nf_text('self._get_values(self.data_sumcutout)'), 'sum: unmasked weighted values (NaN placeholder when none)')
+    expect_stmt(res, 'SPEC', sm, 'result = ' + nf_text('np.array([np.sum(arr) for arr in data_values])'), 'sum over those values')
+    se = repo.method(AS, 'sum_err')
+    expect_stmt(res, 'SPEC', se, 'var_values = ' + nf_text('[arr.compressed() if len(arr.compressed()) > 0 else np.array([np.nan]) for arr in variance]'),
+                'sum_err: unmasked variances (NaN placeholder when none)')
+    expect_stmt(res, 'SPEC', se, 'err = ' + nf_text('np.sqrt([np.sum(arr) for arr in var_values])'), 'sum_err = sqrt of the summed variance')
+    gv = repo.method(AS, '_get_values')
+    SP.returns_match(repo, res, 'SPEC', f'{AS}._get_values', ['[arr.compressed() if len(arr.compressed()) > 0 else np.array([np.nan]) for arr in array]'],
+                     'compressed values, a single NaN for completely masked apertures')
+    cs = repo.method(AS, '_calculate_stats')
+    expect_stmt(res, 'SPEC', cs, 'result = ' + nf_text('np.array([stat_func(arr) for arr in self._data_values_center])'), 'statistics over the centre-method unmasked values')
     # centroid re-based with the origin of the (clipped) cutout
     c = repo.method(AS, 'centroid')
     src = ast.unparse(c.node)
